@@ -46,6 +46,12 @@ CHECKS = {
  "C16": ("Go race detector over concurrent table-client and real-pipeline workloads (reports parsed, deduplicated by innermost repository frame pair, filtered to the shared-table code) + porcupine linearizability checking of recorded client histories + survival/deadlock watchdog",
          "Children are built with -race: 2..16 goroutines (GOMAXPROCS 2/4/16) register/unregister routes, tear faces down, edit FIB/strategies, list and look up like a forwarding thread (copy, sort by cost, read) on both FIBs; 4 real forwarding threads process Interests while tables are mutated; 2-4 clients record call/return-stamped histories that porcupine checks against a sequential flattening+LPM model including the final lookups. A race report with a side in fw/table, fw/face/table.go, fw/dispatch or the NLSR readvertiser, a crash, a 60 s stall or a non-linearizable history is a violation.",
          "Interleavings are sampled, not enumerated; race reports on statistics counters / harness / core.ShouldQuit are listed as out of scope in the evidence; porcupine timeout would be inconclusive.", "5/C16"),
+ "C18": ("reference-model monitor over N real dv.Router objects driven event by event through hooks: advertisements at every fixed point compared with BFS distances of the current topology; bounded-progress check on rounds",
+         "Every connected graph on 2..5 routers (exhaustive up to isomorphism; 6 routers sampled in thorough), 2-6 PRNG-fair delivery schedules each (incl. a starved edge), 0-3 link/router removals and link additions: a full round without change must be reached within 2(N+16) rounds after each fault; there cost == hop distance (<16), next hop on a shortest path, unreachable destinations withdrawn, no advertisement ever lists cost >= 16, and next hops are identical across schedules.",
+         "Delivery orders are sampled; neighbour expiry is triggered through a lastSeen hook + the real dead-neighbour check; hooks: dv/*/verif_hooks.go.", "5/C18"),
+ "C19": ("reference-model monitor: the daemon's rib register/unregister command stream is replayed into a route table and compared after every event with a from-scratch computation from its tables; prefix-log replicas compared with the publisher's announced set",
+         "On the C18 harness with prefix announcements/withdrawals (multi-homed included), link removals/additions and partial rounds: after every event the replayed route table must equal best + finite second-best next-hop faces at minimum cost for <router>/32=DV and every announced prefix; a peer following a publisher's 1-400 operation log through the router's own fetch loop (sequence-by-sequence, snapshot when more than 100 behind; gaps 1,2,5,99,100,101,102,130,150) must reconstruct exactly the announced set.",
+         "Lost prefix Interests are not answered (no timeout simulation); infrastructure routes are filtered by name; hooks: dv/*/verif_hooks.go.", "5/C19"),
  "C20": ("reference-model monitor on a real basic.Engine over a harness face and a harness-owned virtual clock; per-Interest callback log checked against a pending-Interest model at every event",
          "Histories of EXPRESS/DATA/NACK/ADVANCE/ATTACH/DETACH/INCOMING/REPLY events (nested names with duplicates, CanBePrefix, implicit digests right and wrong, lifetimes 100 ms..4 s, clock advances across lifetime+margin boundaries): each callback at most once during and exactly once by the end, Data results only from satisfying Data, every unexpired pending Interest a Data satisfies resolved in that event, Nack only for exactly that name, timeouts never early and delivered by lifetime+margin, longest-prefix handler dispatch, Reply iff now <= deadline. ~2.4x10^4 (quick) / 6.4x10^5 (thorough) histories.",
          "Virtual ndn.Timer and face are harness code (internal/simeng); callbacks only record.", "5/C20"),
